@@ -440,6 +440,7 @@ class List(list, base.Symbolic, pg_typing.CustomTyping):
         self._detach(old_value)
     else:
       super().append(new_value)
+    self._invalidate_content_cache()
     return base.FieldUpdate(
         self.sym_path + index, self,
         self._value_spec.element if self._value_spec else None,
@@ -491,6 +492,7 @@ class List(list, base.Symbolic, pg_typing.CustomTyping):
     if keys_to_remove:
       for i in reversed(keys_to_remove):
         list.__delitem__(self, i)
+      self._invalidate_content_cache()
 
     # Update paths for children.
     self._update_children_indices()
@@ -623,6 +625,7 @@ class List(list, base.Symbolic, pg_typing.CustomTyping):
     super().__delitem__(index)
     self._detach(old_value)
     self._update_children_indices()
+    self._invalidate_content_cache()
 
     if flags.is_change_notification_enabled():
       self._notify_field_updates([
@@ -764,6 +767,7 @@ class List(list, base.Symbolic, pg_typing.CustomTyping):
     for item in self.sym_values():
       self._detach(item)
     super().clear()
+    self._invalidate_content_cache()
 
   def sort(self, *, key=None, reverse=False) -> None:
     """Sorts the items of the list in place.."""
@@ -771,6 +775,7 @@ class List(list, base.Symbolic, pg_typing.CustomTyping):
       raise base.WritePermissionError('Cannot sort a sealed List.')
     super().sort(key=key, reverse=reverse)
     self._update_children_indices()
+    self._invalidate_content_cache()
 
   def reverse(self) -> None:
     """Reverse the elements of the list in place."""
@@ -778,6 +783,7 @@ class List(list, base.Symbolic, pg_typing.CustomTyping):
       raise base.WritePermissionError('Cannot reverse a sealed List.')
     super().reverse()
     self._update_children_indices()
+    self._invalidate_content_cache()
 
   def custom_apply(
       self,
